@@ -325,6 +325,12 @@ fn inert_element_to_tokens(
                     }
                     Node::Text(text) => {
                         let text = text.value_string();
+                        // an empty string is rendered as a single space at
+                        // runtime (see `to_html_with_buf` for `&str` in
+                        // tachys): do the same here
+                        if text.is_empty() && escape {
+                            html.push(' ');
+                        }
                         let text = if escape {
                             html_escape::encode_text(&text)
                         } else {
